@@ -79,6 +79,17 @@ CHECKS.update({
    technique="Coq proof of the control half + differential run on the real controller + whole-system clone scenario", ref="§3 C19"),
 })
 
+CHECKS.update({
+ "C08": dict(
+   text="Coq theorems over the Meta model (replica/replica.go as trees of file-system calls with crash_at/fail_at). crash_prefix: the directory left by death after k calls is the k-th state of the fault-free run. From every state reachable by any history (including deaths inside operations), for open / close / write / snapshot / remove / mark-removed / revert / resize / set-checkpoint / set-rebuilding with any argument the code tolerates, and every k: the directory recovers to a view equal to the one before or after on chain names, inodes, Parent/Removed/UserCreated/Created and volume information (C08_crash_atomic), and a reopen succeeds showing that chain (C08_kill_reopen). C08_durable: every successful operation except initial creation ends every rename/link/unlink/creating open with a directory sync. PARTIAL: C08_fault_atomic is proved for SetCheckpoint (generic lemma for 'rewrite volume.meta, return' programs) and refuted by witness for createDisk with a failing directory sync after the commit rename (known finding createdisk-sync-after-commit); the other operations under a failing call are exercised, not proved. Correspondence (T1v): the real replica.Replica performs one operation under strace; its canonical syscall trace must equal the model's; the process is then killed at, and fed ENOSPC/EIO in, every call; every directory is reopened with the real replica.New and compared with the model's exec/recover; oracles on the implementation's own observations.",
+   note="Trusted: Coq kernel, vm_compute, strace inject semantics (kill on entry; failed call not performed), Go harnesses, python glue, canonicalisation of strace output. Process death only, no page-cache loss; durability is the fsync lint. Image content abstracted to (inode, write count); data equality after reopen judged implementation-vs-implementation. stat/read/close/pread are untraced model calls. Arguments outside the disk-name space and the initial Create are not operations under test.",
+   technique="Coq proof (per-operation symbolic execution with pointwise block specs, static footprint analysis, invariant over histories) + kill/fail-at-every-syscall differential run under strace", ref="§3 C08"),
+ "C12": dict(
+   text="Coq theorems over the Meta model. After every history (C12_wf_repaired: for the code with the argument repairs that are now in /repo): recover succeeds, the chain is a duplicate-free path from the head to the base, every member has image and metadata file holding its record, length <= MaxChainLength, and diskData / diskChildrenMap / activeDiskData / Info agree with the directory. C12_reopen_roundtrip (close or death, then open: same names, inodes, attributes; open succeeds). C12_refused_unchanged (any non-success result leaves recovered view and memory identical). The pre-repair code is refuted by two witnesses (kept as history). Correspondence (T1): random histories (30% invalid arguments) on the real replica.Server, comparing Chain(), ListDisks(), Info(), directory with hard-link structure, decoded metadata files and content fingerprints after every step; oracle on the implementation's and on the model's trace.",
+   note="Trusted: as C08 without strace. Per-disk RevisionCounter excluded from the round trip. ReplaceDisk / UpdateCloneInfo / Reload not in the alphabet. The general lemma 'c12_oracle holds on every model trace' is not proved (the oracle is evaluated on the model's own trace of every executed history and two representative histories are proved by vm_compute).",
+   technique="Coq proof (invariant by induction over histories via per-operation specs, list-surgery lemmas) + differential run on a real replica directory", ref="§3 C12"),
+})
+
 def main():
     checks = []
     for pid in sorted(CHECKS):
